@@ -46,7 +46,7 @@ CHECKS = {
    text="For every file pair, per shape, at least as many body-identical pairings with status renamed exist as functions were purely renamed; pairings are one-to-one and never below the threshold. TopologySimilarity is checked on all pairs for symmetry, range, identity and exact 1.0 against fully renamed copies.",
    note="Trusted: with identical twins any body-identical partner is accepted (identity of twins is unobservable).", ref="3/C19"),
  "C12": dict(cat="exploration", tech="bounded-exhaustive counted-loop family analysed by the real DetectLoops/AnalyzeSCEV; every claimed add-recurrence and trip count compiled into an instrumented native twin that checks it on all 256 argument vectors (every header evaluation, every activation's body count)",
-   text="Every loop of the family (8 shapes x 5 tests x 6 steps x 3 starts x 3 bounds x IV types, plus nested and sibling loops) is analysed with the real code; each {start,+,step} and trip-count claim becomes Go code inside a native twin of the same loop, which compares it with the value the variable really holds at the k-th header evaluation (modulo its width) and with the number of body executions, for every argument vector on which the loop terminates.",
+   text="Every loop of the family (10 shapes x 5 tests x 6 steps x 5 starts x 3 bounds x IV types, plus nested and sibling loops) is analysed with the real code; each {start,+,step} and trip-count claim becomes Go code inside a native twin of the same loop, which compares it with the value the variable really holds at the k-th header evaluation (modulo its width) and with the number of body executions, for every argument vector on which the loop terminates.",
    note="Trusted: native execution; the SCEV-to-Go translation (constants, the two parameters, + - * truncating /, max); non-evaluable claims are counted and skipped.", ref="3/C12"),
  "C16": dict(cat="exploration", tech="bounded-exhaustive enumeration of directory trees (all subsets <=2/<=3 of a 13-feature menu + the full set) through the built sfw binary (check, check --strict, scan) against an independent walk + go/ast inventory",
    text="Every tree within the bound is analysed by the real CLI; an independent inventory decides which files must appear exactly once, which must not appear, which functions/methods/function literals must be attributed to their file and line, which files must carry an error, and when strict mode must fail.",
